@@ -368,8 +368,11 @@ def batch(
 def shrink_and_write(prop, pid: str, case: Dict[str, Any], seed: int, sig: List[str], known, vseed: int,
                      do_shrink: bool = True) -> str:
     target = tuple(sig)
+    t_end = time.time() + float(getattr(prop, "SHRINK_WALL", 45.0))
 
     def fails(c: Dict[str, Any]) -> bool:
+        if time.time() > t_end:      # wall budget of the minimiser (outside the simulation): stop shrinking, keep what we have
+            return False
         r = run_case(prop, c, seed, known)
         return r["verdict"] == "violation" and tuple(r["sig"]) == target
 
